@@ -407,3 +407,23 @@ theorem L0_isum_cast (A : ℕ → ℤ) (n : ℕ) : ((ISUM A n : ℤ) : ℝ) = SU
   rfl
 
 end PyvcLemmas
+
+namespace PyvcLemmas
+
+/-- a non-zero sum has a non-zero summand (used: a catalog forecast with a non-zero expected count has a non-empty catalog) -/
+theorem L4_sum_ne_zero_exists (A : ℕ → ℝ) (n : ℕ) (h : SUM A n ≠ 0) : ∃ i < n, A i ≠ 0 := by
+  by_contra hne
+  push Not at hne
+  apply h
+  unfold SUM
+  apply Finset.sum_eq_zero
+  intro i hi
+  exact hne i (Finset.mem_range.mp hi)
+
+/-- a predicate that holds somewhere below n is counted at least once -/
+theorem L3b_count_pos (B : ℕ → Prop) [DecidablePred B] (n i : ℕ) (hi : i < n) (hb : B i) : 1 ≤ CNT B n := by
+  unfold CNT
+  apply Finset.card_pos.mpr
+  exact ⟨i, by simp [Finset.mem_filter, hi, hb]⟩
+
+end PyvcLemmas
